@@ -23,6 +23,15 @@ pub enum FrontKind {
     Sharded(usize),
     /// stacked Cache: sharded(2) writer + one plain read-only level holding key 0
     Stack,
+    /// the same with the library's byte-equality consistency checker configured (every lookup compares all copies;
+    /// ensure also compares what populate produces, which here is the read-only level's value for key 0)
+    StackChecked,
+}
+
+impl FrontKind {
+    pub fn is_stack(&self) -> bool {
+        matches!(self, FrontKind::Stack | FrontKind::StackChecked)
+    }
 }
 
 #[derive(Clone, Copy, Debug, PartialEq, Eq, Hash)]
@@ -49,7 +58,7 @@ impl Config {
         match self.front {
             FrontKind::Plain => 1,
             FrontKind::Sharded(n) => n,
-            FrontKind::Stack => 2,
+            FrontKind::Stack | FrontKind::StackChecked => 2,
         }
     }
     fn dir_capacity(&self) -> usize {
@@ -174,11 +183,11 @@ pub fn alphabet(cfg: &Config) -> Vec<Sym> {
                     v.push(Sym { handle: h, op: HOp::Set(k, val), fire, shard_draw: d });
                 }
                 v.push(Sym { handle: h, op: HOp::Put(k), fire, shard_draw: d });
-                if cfg.front != FrontKind::Stack && k == 0 && !fire {
+                if !cfg.front.is_stack() && k == 0 && !fire {
                     v.push(Sym { handle: h, op: HOp::SetLinked(k), fire, shard_draw: d });
                     v.push(Sym { handle: h, op: HOp::PutLinked(k), fire, shard_draw: d });
                 }
-                if cfg.front == FrontKind::Stack {
+                if cfg.front.is_stack() {
                     v.push(Sym { handle: h, op: HOp::Ensure(k), fire, shard_draw: d });
                 }
             }
@@ -225,7 +234,7 @@ fn open_live(cfg: &Config) -> Live {
         std::fs::create_dir_all(&w).unwrap();
         std::fs::create_dir_all(&app).unwrap();
     });
-    if cfg.front == FrontKind::Stack {
+    if cfg.front.is_stack() {
         let old = run::base_time_ns() as i128 - 86_400_000_000_000;
         world::plant(&ro.join("ka"), &ro_val().bytes(), 0o444, old - 120_000_000_000, old);
         world::plant(&ro.join("other"), b"bystander", 0o444, old - 120_000_000_000, old);
@@ -238,6 +247,14 @@ fn open_live(cfg: &Config) -> Live {
                 kismet_cache::CacheBuilder::new()
                     .sharded_writer(&w, 2, cfg.total_capacity())
                     .plain_reader(&ro)
+                    .take()
+                    .build(),
+            ),
+            FrontKind::StackChecked => Handle::Stack(
+                kismet_cache::CacheBuilder::new()
+                    .sharded_writer(&w, 2, cfg.total_capacity())
+                    .plain_reader(&ro)
+                    .byte_equality_checker()
                     .take()
                     .build(),
             ),
@@ -293,6 +310,7 @@ fn exec(live: &mut Live, cfg: &Config, sym: &Sym) -> (Got, Vec<Ev>, Option<PathB
     let fire = sym.fire;
     let draw = sym.shard_draw as u64;
     let op = sym.op;
+    let checked = cfg.front == FrontKind::StackChecked;
     let (r, trace) = run::as_participant(sym.handle as i32, 0, move || {
         if fire {
             run::trigger_fire_next(u64::MAX);
@@ -315,7 +333,7 @@ fn exec(live: &mut Live, cfg: &Config, sym: &Sym) -> (Got, Vec<Ev>, Option<PathB
                 let o = match op {
                     HOp::Set(_, v) => ops::Op::Set(key.clone(), set_val(v)),
                     HOp::Put(_) | HOp::SetLinked(_) | HOp::PutLinked(_) => ops::Op::Put(key.clone(), put_val()),
-                    HOp::Ensure(_) => ops::Op::Ensure(key.clone(), Pop::Value(ensure_val())),
+                    HOp::Ensure(_) => ops::Op::Ensure(key.clone(), Pop::Value(if checked && key.name == "ka" { ro_val() } else { ensure_val() })),
                     HOp::Get(_) => ops::Op::Get(key.clone()),
                     HOp::Touch(_) => ops::Op::Touch(key.clone()),
                 };
@@ -412,7 +430,7 @@ fn step(live: &mut Live, cfg: &Config, sym: &Sym, rep: &mut Report) -> Vec<(Stri
     let mut bad = Vec::new();
     let keys = cfg.keys();
     let before = world::snapshot(&live.w);
-    let ro_before = if cfg.front == FrontKind::Stack { Some(world::snapshot(&live.ro)) } else { None };
+    let ro_before = if cfg.front.is_stack() { Some(world::snapshot(&live.ro)) } else { None };
     let (got, trace, src) = exec(live, cfg, sym);
     LAST_FAILED.with(|f| f.set(matches!(got, Got::Err(_) | Got::Panic(_))));
     rep.transitions += trace.len() as u64;
@@ -503,8 +521,18 @@ fn step(live: &mut Live, cfg: &Config, sym: &Sym, rep: &mut Report) -> Vec<(Stri
         HOp::Put(k) | HOp::Get(k) | HOp::Touch(k) | HOp::Ensure(k) | HOp::SetLinked(k) | HOp::PutLinked(k) => (k, None),
     };
     let key = &keys[kidx as usize];
-    let ro_has = cfg.front == FrontKind::Stack && key.name == "ka";
+    let ro_has = cfg.front.is_stack() && key.name == "ka";
     let in_model = live.model.get(&key.name).copied();
+    let checked = cfg.front == FrontKind::StackChecked;
+    // with the checker every lookup compares all present copies (ensure also what populate produces): any
+    // disagreement is an error and changes nothing
+    let populated = if checked && key.name == "ka" { ro_val() } else { ensure_val() };
+    let copies: Vec<Val> = in_model.into_iter().chain(if ro_has { Some(ro_val()) } else { None }).collect();
+    let disagree = |extra: Option<Val>| -> bool {
+        let all: Vec<Val> = copies.iter().copied().chain(extra).collect();
+        checked && all.windows(2).any(|w| w[0] != w[1])
+    };
+    let mismatch = Got::Err("<a mismatch reported by the consistency checker>".into());
     let expect: Got = match sym.op {
         HOp::Set(_, v) => {
             live.model.insert(key.name.clone(), set_val(v));
@@ -519,12 +547,14 @@ fn step(live: &mut Live, cfg: &Config, sym: &Sym, rep: &mut Report) -> Vec<(Stri
             live.model.entry(key.name.clone()).or_insert(put_val());
             Got::Unit
         }
+        HOp::Get(_) if disagree(None) => mismatch.clone(),
         HOp::Get(_) => match in_model {
             Some(v) => Got::Hit(v.bytes()),
             None if ro_has => Got::Hit(ro_val().bytes()),
             None => Got::Miss,
         },
         HOp::Touch(_) => Got::Bool(in_model.is_some() || ro_has),
+        HOp::Ensure(_) if !copies.is_empty() && disagree(Some(populated)) => mismatch.clone(),
         HOp::Ensure(_) => match in_model {
             Some(v) => Got::Hit(v.bytes()),
             None if ro_has => {
@@ -532,11 +562,12 @@ fn step(live: &mut Live, cfg: &Config, sym: &Sym, rep: &mut Report) -> Vec<(Stri
                 Got::Hit(ro_val().bytes())
             }
             None => {
-                live.model.insert(key.name.clone(), ensure_val());
-                Got::Hit(ensure_val().bytes())
+                live.model.insert(key.name.clone(), populated);
+                Got::Hit(populated.bytes())
             }
         },
     };
+    let got = if matches!((&got, &expect), (Got::Err(_), Got::Err(_))) && expect == mismatch { mismatch.clone() } else { got };
     if got != expect {
         let show = |g: &Got| match g {
             Got::Hit(b) => format!("hit:{}", world::describe_bytes(b)),
@@ -666,6 +697,8 @@ fn parse_cfg(v: &Value) -> Config {
         FrontKind::Plain
     } else if f == "Stack" {
         FrontKind::Stack
+    } else if f == "StackChecked" {
+        FrontKind::StackChecked
     } else {
         FrontKind::Sharded(f.trim_start_matches("Sharded(").trim_end_matches(')').parse().unwrap())
     };
@@ -707,7 +740,7 @@ fn bfs(cfg: &Config, depth: usize, shard: Shard, rep: &mut Report, wall_cap_s: f
                     rep.violation(format!("history:{}", sig), format!("{} after {} steps: {}", cfg.label(), h.len(), msg), case_json(cfg, &h));
                 }
                 let mut key = canon(&live, cfg);
-                if cfg.front == FrontKind::Stack {
+                if cfg.front.is_stack() {
                     // the stacked Cache does not expose its writer's in-memory load estimates, which decide
                     // where new keys go: without them in the key, merging would not be sound, so every
                     // history of the stacked front-end is its own state (plain depth-bounded enumeration)
@@ -815,14 +848,14 @@ pub fn configs(tier: Tier) -> Vec<(Config, usize)> {
     let mut v = Vec::new();
     let q = tier == Tier::Quick;
     let fronts: Vec<FrontKind> = if q {
-        vec![FrontKind::Plain, FrontKind::Sharded(2), FrontKind::Sharded(3), FrontKind::Stack]
+        vec![FrontKind::Plain, FrontKind::Sharded(2), FrontKind::Sharded(3), FrontKind::Stack, FrontKind::StackChecked]
     } else {
-        vec![FrontKind::Plain, FrontKind::Sharded(2), FrontKind::Sharded(3), FrontKind::Sharded(8), FrontKind::Stack]
+        vec![FrontKind::Plain, FrontKind::Sharded(2), FrontKind::Sharded(3), FrontKind::Sharded(8), FrontKind::Stack, FrontKind::StackChecked]
     };
     for front in fronts {
         for cap in [CapMode::Tight, CapMode::Roomy] {
             if q {
-                let stack = front == FrontKind::Stack;
+                let stack = front.is_stack();
                 v.push((Config { front, cap, handles: 1, nkeys: if stack { 2 } else { 3 } }, if stack { 3 } else { 4 }));
                 v.push((Config { front, cap, handles: 2, nkeys: 2 }, if stack { 2 } else { 3 }));
             } else {
@@ -837,7 +870,8 @@ pub fn configs(tier: Tier) -> Vec<(Config, usize)> {
 
 pub fn run(tier: Tier, shard: Shard, rep: &mut Report) {
     rep.rule = "breadth-first search over operation histories issued one at a time through 1-3 independent handles (own in-memory load \
-        estimates) on the same directories: front-ends plain, sharded (2, 3, 8 shards), stacked (sharded writer + plain read-only level); \
+        estimates) on the same directories: front-ends plain, sharded (2, 3, 8 shards), stacked (sharded writer + plain read-only level; \
+        with and without the library's byte-equality checker, under which disagreeing copies must make the lookup fail and change nothing); \
         keys with the same shard pair, the swapped pair, and one whose secondary image equals its primary (fix-up); alphabet per handle \
         {set k A|B, put k C, get k, touch k, (stacked) ensure k D} x environment answers {trigger fires / does not, random other shard \
         in {0, 1, n-1}}; capacities 'tight' (2 per directory: evictions all the time) and 'roomy' (2^40). States are deduplicated on a \
